@@ -371,7 +371,10 @@ func TestC14Elections(t *testing.T) {
 					continue
 				}
 				if uint64(ex.ValidFor) != capEpoch {
-					continue // committee of an earlier epoch (runtime suspended)
+					// `runtimes` lists the runtimes that are ACTIVE after the election block's BeginBlock (a runtime that got no
+					// committee has been suspended by then and is not among them; its old committee record may linger): an
+					// active runtime works with the committee of THIS epoch or none
+					fail("stale-committee", "epoch %d: the active runtime %s still has the executor committee elected for epoch %d", capEpoch, rt.ID, ex.ValidFor)
 				}
 				workers, backups := 0, 0
 				seenW, seenB := map[signature.PublicKey]bool{}, map[signature.PublicKey]bool{}
